@@ -708,7 +708,14 @@ fn description_edits(texts: &Texts, example: &str, closure: &[String], base_reg:
                 let mut refs = BTreeSet::new();
                 type_names(&reg, &mut refs);
                 let dangling: Vec<&String> = refs.iter().filter(|t| reg.get(t.as_str()).is_none() && !(LIBS.contains(&example) && *t == "Effect")).collect();
-                if !paths.is_empty() || !wrong.is_empty() || !added.is_empty() || !dangling.is_empty() {
+                if paths.is_empty() && wrong.is_empty() && added.is_empty() && !dangling.is_empty() {
+                    // the edit did what was predicted, but a type the field refers to lost its entry
+                    r.violation(
+                        &format!("registry/not-closed-after-field-edit/{}", dangling.iter().map(|s| s.as_str()).collect::<Vec<_>>().join("+")),
+                        &format!("{example}: after the type of a field was edited ({what}) the registry refers to {dangling:?} without defining it (the field shows at {:?})", control_paths.iter().take(4).collect::<Vec<_>>()),
+                        json!({"lane": "clilab", "example": example, "crate": c, "item": k, "edit": what, "undefined": dangling}),
+                    );
+                } else if !paths.is_empty() || !wrong.is_empty() || !added.is_empty() || !dangling.is_empty() {
                     r.violation(
                         &format!("registry/field-edit-has-unexpected-effect/{}", if kind == 0 && old_prim.is_some() { "primitive".to_string() } else { what.replace(' ', "") }),
                         &format!("{example}: the type of a field was edited ({what}); the registry also changed at {:?} (the field shows at {:?}); not as predicted: {:?}; entries added {added:?}; referenced but not defined {dangling:?}", paths.iter().take(4).collect::<Vec<_>>(), control_paths.iter().take(4).collect::<Vec<_>>(), wrong.iter().take(3).collect::<Vec<_>>()),
